@@ -3,7 +3,7 @@ import math
 import shutil
 import tempfile
 
-from verif import build, proc
+from verif import build, core, proc
 from verif.gen import iso
 from verif.oracles import models_doc as doc
 
@@ -20,17 +20,20 @@ META = {
                   "reference (lib/verif/oracles/models_doc.py) is written from the documentation only: W/min(S_pstate,bound); d; "
                   "lat*lat_factor(size) + size/(bw_factor(size)*min(share, gamma/(2 lat))) with share = min over link constraints of bw/(1 [+0.05 "
                   "if cross-traffic and the reverse route uses the same constraint]), the defaults of raw/CM02/LV08/SMPI, interval factors with the "
-                  "documented [b_i, b_i+1) semantics, TCP-gamma 0 / default / custom, cross-traffic on/off, custom constant and interval factors; "
+                  "semantics documented by the tree under test (the sentence of Configuring_SimGrid.rst explaining 0:1;1000:2;5000:3 is parsed: [b_i, b_i+1) today), TCP-gamma 0 / default / custom, cross-traffic on/off, custom constant and interval factors; "
                   "size/read_bw|write_bw; max flops_i/speed_i. Tolerance: precision/timing (1e-9 s) plus 1e-12 relative to the clock (rounding of "
                   "the double clock).",
     "level_note": "Where the documentation is ambiguous both readings are accepted and counted: bandwidth factor x TCP window when the window is the "
-                  "limit and the factor is not 1 (counter points.gamma_limited_two_readings). Multi-threaded execs (set_thread_count) are not "
+                  "limit and the factor is not 1 (size/(factor*window), 'the size of your message is increased by a few percents', or the statement's "
+                  "literal size/min(bw*factor, window); counters points.gamma_limited_two_readings, gamma_limited.observed_matches.*). Every run first "
+                  "checks that the reference reproduces the numbers printed in Models.rst (0.996079, 1, 1.00001, 4.77, 476.84+0.1, 0.81) and runs "
+                  "directed cases on the platform of Models.rst (sizes 0, 1, every interval boundary -1/0/+1, loopback, exec, sleep, I/O). Multi-threaded execs (set_thread_count) are not "
                   "judged (the documentation of their cost is ambiguous). ptask_L07 runs in its own processes and only ptasks of pure computation, "
                   "sequential execs, sleeps and I/Os are judged there. 10% of the processes also run under ASan+UBSan.",
     "rule": "point = one isolated activity on one generated platform under one model configuration; non-trivial = distinct (configuration, kind, "
             "regime, route length / bound / pstate class) classes whose duration was compared with the reference",
     "assumptions": ["the documented formula is evaluated in double precision; 1e-12 relative to the simulated clock is allowed for rounding on top of precision/timing"],
-    "ready": False,
+    "ready": True,
 }
 
 PREC_TIMING = 1e-9      # documented precision/timing
@@ -70,6 +73,21 @@ def configs(rng):
     return out
 
 
+_SEM = {}
+
+
+def semantics():
+    """Closed end of the intervals of interval-based factors, as documented by the tree under test (VERIF_REPO)."""
+    if "v" not in _SEM:
+        v = doc.interval_semantics(build.REPO)
+        if v is None:
+            raise core.HarnessFailure("C20: the sentence of docs/source/Configuring_SimGrid.rst that defines interval-based factors "
+                                      "(example 0:1;1000:2;5000:3) was not found or not understood in %s: re-read the documentation and "
+                                      "update verif.oracles.models_doc.interval_semantics" % build.REPO)
+        _SEM["v"] = v
+    return _SEM["v"]
+
+
 def expected(p, op, prm):
     """-> (acceptable durations, class string, extra info)."""
     k = op["k"]
@@ -92,7 +110,7 @@ def expected(p, op, prm):
         return [doc.ptask_time(parts)], "ptask:%dparts:%s" % (len(parts), "with-zero" if any(f == 0 for f, _ in parts) else "all-positive"), {}
     if k == "C":
         links = {l["name"]: l for l in p["links"]}
-        params = {"lf": doc.Factor(prm["lat_factor"]), "bf": doc.Factor(prm["bw_factor"]), "gamma": prm["gamma"]}
+        params = {"lf": doc.Factor(prm["lat_factor"], semantics()), "bf": doc.Factor(prm["bw_factor"], semantics()), "gamma": prm["gamma"]}
         if op["src"] == op["dst"]:
             fwd = [("loopback", doc.LOOPBACK_BW, "F")]
             back = fwd
@@ -114,7 +132,7 @@ def expected(p, op, prm):
         onb = op["size"] in params["lf"].boundaries() or op["size"] in params["bf"].boundaries()
         info = {"lat": lat, "cap": cap, "lf": params["lf"](op["size"]), "bf": params["bf"](op["size"]), "on_boundary": onb}
         if onb:
-            p2 = {"lf": params["lf"].code_boundary_reading, "bf": params["bf"].code_boundary_reading, "gamma": prm["gamma"]}
+            p2 = {"lf": params["lf"].other_reading, "bf": params["bf"].other_reading, "gamma": prm["gamma"]}
             info["other_reading"] = doc.comm_time(op["size"], lat, cap, p2)[0]
         return exp, "comm:%s:%s%s" % (regime, shape, ":on-boundary" if onb else ""), info
     raise ValueError(k)
@@ -156,7 +174,10 @@ def judge(ctx, cfgname, flags, prm, flavour, p, ops, res, directed=False):
             durs.append(("activity", ft - st))
         ok = all(any(close(d, e, t1) for e in exp) for _, d in durs)
         if "gamma-limited" in cls and len(exp) > 1:
+            # exp[0]: size/(bw_factor*window) ("the size of your message is increased by a few percents");  exp[1]: size/min(bw*bw_factor, window)
             ctx.count("points.gamma_limited_two_readings")
+            if ok:
+                ctx.count("gamma_limited.observed_matches." + ("message-inflated-reading" if close(durs[0][1], exp[0], t1) else "min(bw*factor,window)-reading"))
         err = max(min(abs(d - e) for e in exp) for _, d in durs)
         if ok:
             ctx.maximum("held.worst_err_over_tolerance", err / (PREC_TIMING + REL * max(abs(t1), abs(exp[0]))))
@@ -170,20 +191,55 @@ def judge(ctx, cfgname, flags, prm, flavour, p, ops, res, directed=False):
                 % (op["k"], cfgname, "/".join(repr(e) for e in exp), durs[0][1], durs[-1][1], info, op))
         if op["k"] == "C" and info.get("on_boundary") and all(any(close(d, e, t1) for e in info["other_reading"]) for _, d in durs):
             key = "C20:comm:factor-interval-boundary"
-            what = ("size %r is a boundary of the interval factors (%s): the documentation says the interval starting at the boundary applies "
-                    "([b_i, b_i+1)), the observed duration %r is the one of the interval ending there (documented value %r)"
-                    % (op["size"], cfgname, durs[0][1], exp[0]))
+            what = ("size %r is a boundary of the interval factors (%s): the documentation of this tree says that a boundary belongs to the "
+                    "interval that %s ('%s'), the observed duration %r is the one of the other reading (documented value %r; latency factor "
+                    "%r, bandwidth factor %r)"
+                    % (op["size"], cfgname, "starts there" if semantics() == "lower" else "ends there",
+                       "[b_i, b_i+1)" if semantics() == "lower" else "(b_i, b_i+1]", durs[0][1], exp[0], info["lf"], info["bf"]))
         ctx.violation(key, what, dict(w0, ops=[op]))
     return n
 
 
 DIRECTED_PLATFORM = {
-    "hosts": [{"name": "h0", "cores": 1, "speeds": [1e9]}, {"name": "h1", "cores": 1, "speeds": [1e9]}],
-    "links": [{"name": "l0", "bw": 1e6, "lat": 0.01, "pol": "S"}],       # the platform of Models.rst (1Mbps, 10ms)
-    "routes": [{"src": "h0", "dst": "h1", "sym": 1, "links": [("l0", "N")]}],
+    "hosts": [{"name": "h%d" % i, "cores": 1, "speeds": [1e9]} for i in range(6)],
+    "links": [{"name": "l0", "bw": 1e6, "lat": 0.01, "pol": "S"},       # the platform of Models.rst, LV08 section (1MBps, 10ms)
+              # Models.rst, CM02 section: 1e10 bytes over a 1e10 B/s link "that is otherwise unused", latency 0 / 1e-5 / 1e-3 / 0.1
+              {"name": "g0", "bw": 1e10, "lat": 0.0, "pol": "D"}, {"name": "g1", "bw": 1e10, "lat": 1e-5, "pol": "D"},
+              {"name": "g2", "bw": 1e10, "lat": 1e-3, "pol": "D"}, {"name": "g3", "bw": 1e10, "lat": 0.1, "pol": "D"}],
+    "routes": [{"src": "h0", "dst": "h1", "sym": 1, "links": [("l0", "N")]}] +
+              [{"src": "h0", "dst": "h%d" % (i + 2), "sym": 1, "links": [("g%d" % i, "U")]} for i in range(4)],
     "disks": [{"host": "h0", "name": "d0", "rbw": 1e8, "wbw": 5e7}],
 }
-DIRECTED_OPS = [{"k": "C", "src": "h0", "dst": "h1", "size": float(s)} for s in (800000, 0, 1, 256, 257, 258, 65471, 65472, 65473, 1000, 5000, 999, 4999)]
+# sizes around every boundary of the SMPI defaults and of the example of Configuring_SimGrid.rst, 0, 1, and the 100kB of Models.rst
+DIRECTED_SIZES = [800000, 0, 1, 999, 1000, 1001, 4999, 5000, 5001] + [b + d for b in iso.SMPI_BOUNDS for d in (-1, 0, 1)]
+DIRECTED_OPS = ([{"k": "C", "src": "h0", "dst": "h1", "size": float(s)} for s in DIRECTED_SIZES] +
+                [{"k": "C", "src": "h1", "dst": "h0", "size": 800000.0}, {"k": "C", "src": "h1", "dst": "h1", "size": 1e9}] +
+                [{"k": "E", "host": "h0", "pstate": 0, "bound": -1.0, "flops": 1e9}, {"k": "E", "host": "h0", "pstate": 0, "bound": 2.5e8, "flops": 1e9},
+                 {"k": "S", "d": 0.0}, {"k": "S", "d": 1e-9}, {"k": "S", "d": 1.5},
+                 {"k": "I", "disk": "d0", "rw": "R", "size": 10 ** 8}, {"k": "I", "disk": "d0", "rw": "W", "size": 10 ** 8}] +
+                [{"k": "C", "src": "h0", "dst": "h%d" % (i + 2), "size": 1e10} for i in range(4)])
+
+
+def oracle_reproduces_documentation():
+    """The numbers printed in Models.rst must come out of the transcription (otherwise the reference, not SimGrid, is wrong)."""
+    def t(model, size, src, dst, **over):
+        prm = dict(doc.MODEL_DEFAULTS[model], **over)
+        return expected(DIRECTED_PLATFORM, {"k": "C", "src": src, "dst": dst, "size": size}, prm)[0][0]
+    checks = [
+        (t("LV08", 800000.0, "h0", "h1"), 0.996079, 5e-7),      # '0.01 * 13.01 + 800000 / ((0.97 * 1e6) / 1.05) =  0.996079 seconds'
+        (t("CM02", 1e10, "h0", "h2"), 1.0, 0),                    # 'If the link latency is 0, the communication, expectedly, takes one second'
+        (t("CM02", 1e10, "h0", "h3"), 1.00001, 1e-12),            # 'the communication takes 1.00001s'
+        (t("CM02", 1e10, "h0", "h4"), 4.77, 5e-3),                # 'takes about 4.77s'
+        (t("CM02", 1e10, "h0", "h5"), 476.84 + 0.1, 5e-3),        # 'takes about 476.84 + 0.1 seconds'
+        (t("raw", 800000.0, "h0", "h1"), 0.81, 1e-15),            # '0.01 + 8e5/1e6 = 0.81'
+        (doc.Factor("0:1;1000:2;5000:3", "lower")(1000), 2.0, 0), (doc.Factor("0:1;1000:2;5000:3", "lower")(999), 1.0, 0),
+        (doc.Factor("0:1;1000:2;5000:3", "lower")(5000), 3.0, 0), (doc.Factor("0:1;1000:2;5000:3", "upper")(5000), 2.0, 0),
+        (doc.Factor(doc.SMPI_LAT, "lower")(256), 2.01467, 0),     # 'a message smaller than 257 bytes will get a latency multiplier of 2.01467'
+        (doc.Factor(doc.SMPI_LAT, "lower")(20000), 3.48845, 0), (doc.Factor(doc.SMPI_LAT, "upper")(20000), 3.48845, 0),
+    ]
+    for i, (got, want, tol) in enumerate(checks):
+        if not abs(got - want) <= tol:
+            raise core.HarnessFailure("C20: the reference does not reproduce documented example #%d: %r instead of %r" % (i, got, want))
 
 
 def run(ctx):
@@ -191,6 +247,8 @@ def run(ctx):
     nops = 120                        # activities per process
     tmp = tempfile.mkdtemp(prefix="verif-C20-")
     try:
+        ctx.count("interval_factors.documented_closed_end." + semantics())
+        oracle_reproduces_documentation()
         for fl in ("hooks", "asan"):
             build.harness("iso.cpp", fl, deps=["plat.hpp"])
         jobs = []
@@ -222,11 +280,11 @@ def run(ctx):
 
 
 def replay(ctx, w):
-    res = run_process(w["flavour"], w["flags"], w["platform"], w["ops"])
     p = w["platform"]
-    for r in p["routes"]:
+    for r in p["routes"]:           # JSON turned the (link, direction) pairs into lists
         r["links"] = [tuple(x) for x in r["links"]]
     for o in w["ops"]:
         if o["k"] == "P":
             o["parts"] = [tuple(x) for x in o["parts"]]
+    res = run_process(w["flavour"], w["flags"], p, w["ops"])
     judge(ctx, w["cfg"], w["flags"], w["params"], w["flavour"], p, w["ops"], res)
